@@ -147,6 +147,8 @@ def gen_op(rng, op_id, arrays, objects, strings, n_tmp):
             return ['str', rng.choice(SUBS)]
         if kind == 'code':
             return ['num', rng.choice([65, 97, 233, 0x1D11E, 48, 0, -1, 65.5, 0x110000, 32])]
+        if kind == 'cmp':
+            return ['var', rng.choice(['hostCmp', 'hostCmpLen', 'hostCmpNested', 'hostCmpNested'])]
         return any_value()
 
     def wrong(kind):
@@ -155,6 +157,9 @@ def gen_op(rng, op_id, arrays, objects, strings, n_tmp):
         choices = [('null', ['lit', 'null']), ('boolean', ['lit', 'true']), ('number', ['num', 1]), ('string', ['str', 'w']),
                    ('datetime', ['var', 'vDt']), ('array', ['new', 'arrayNew']), ('object', ['new', 'objectNew']),
                    ('function', ['var', 'hostNop']), ('regex', ['var', 'vRe'])]
+        if kind == 'cmp':
+            base = 'function'
+            choices = [c for c in choices if c[0] != 'null']      # the compare function is nullable
         choices = [c for c in choices if c[0] != base]
         return rng.choice(choices)[1]
 
@@ -331,7 +336,8 @@ def run(plan, stats):
     viols = []
     real_pool = build_pool(plan['pool'], True)
     ref_pool = build_pool(plan['pool'], False)
-    opaque = {'vDt': Opaque('datetime'), 'vRe': Opaque('regex'), 'hostNop': Opaque('function'), 'hostPred': Opaque('pred')}
+    opaque = {'vDt': Opaque('datetime'), 'vRe': Opaque('regex'), 'hostNop': Opaque('function'), 'hostPred': Opaque('pred'),
+              'hostCmp': Opaque('cmp:desc'), 'hostCmpLen': Opaque('cmp:len'), 'hostCmpNested': Opaque('cmp:nested')}
     ref_globals = dict(ref_pool)
     ref_globals.update(opaque)
     ops_by_id = {op['id']: op for ops in plan['clients'] for op in ops}
@@ -345,6 +351,18 @@ def run(plan, stats):
     globals_['vRe'] = re.compile('a')
     globals_['hostNop'] = lambda args, options: None
     globals_['hostPred'] = lambda args, options: copy.deepcopy(refheap.pred_value(args[0] if args else None))
+    globals_['hostCmp'] = lambda args, options: refheap.cmp_value('desc', args[0], args[1])
+    globals_['hostCmpLen'] = lambda args, options: refheap.cmp_value('len', args[0], args[1])
+
+    def host_cmp_nested(args, options):
+        # a compare function that itself sorts an unrelated array with another compare function while the outer
+        # sort is in progress (with the options it was handed)
+        from bare_script.library import SCRIPT_FUNCTIONS
+        scratch = [3.0, 'bb', 1.0, 'a', 2.0, None]
+        SCRIPT_FUNCTIONS['arraySort']([scratch, globals_['hostCmpLen']], options)
+        stats.faults['nested_sort_inside_compare_function'] += 1
+        return refheap.cmp_value('nested', args[0], args[1])
+    globals_['hostCmpNested'] = host_cmp_nested
 
     def ref_arg(a):
         if a[0] == 'var':
